@@ -45,7 +45,19 @@ def run(tier):
     if len(beh) < 100:
         raise ToolError("too few SnapInstall behaviours: %d" % len(beh))
     beh.sort(key=lambda b: -n_installs(b))
-    beh = beh[: (220 if quick else 3000)]
+    beh = beh[: (200 if quick else 3000)]
+    # thin cases from the COMPLETE state graph of the small model: an install completes while the follower holds an
+    # echoed (temporary) value of a key (random schedules rarely get there)
+    import random
+    g = vlib.tlc_mc("SnapInstall.tla", "GEN_SnapInstall_echo.cfg", name="c08_gen", collect_replay=True, timeout=1200)
+    thin = g.get("replay", [])
+    if not thin:
+        raise ToolError("no thin (install over an echoed value) behaviour exported")
+    random.Random(c.seed).shuffle(thin)
+    c.cov["thin_echo_exported"] = len(thin)
+    thin = thin[: (60 if quick else 400)]
+    c.cov["thin_echo_replayed"] = len(thin)
+    beh += thin
     bf = vlib.write_ndjson(os.path.join(sc, "beh.ndjson"), beh)
     res = vlib.harness(["replay", "snapinstall", bf, "--jobs", 8], timeout=9000)
     summ = [r for r in res if r.get("kind") == "summary"][0]
